@@ -11,6 +11,7 @@ if grep -rnE 'Admitted|admit\.|^\s*Axiom |^\s*Parameter |^\s*Conjecture |Unset G
   echo "forbidden construct in the Coq development" >&2
   exit 1
 fi
+python3 -c "import sys; sys.path.insert(0, '/verif'); from harness import lib; print(lib.regen())"
 cd coq
 coq_makefile -f _CoqProject -o Makefile > /dev/null
 timeout 3000 make -j16 > build.log 2>&1 || { tail -30 build.log; exit 1; }
